@@ -3,7 +3,9 @@
    collector thread: util::FileStream on fd 1               (another oracle)
    The threads only share the queue of record descriptions (C04/C05/C16); each thread's system
    calls are sequential, so each gets its own outcome list.  What the child answers is
-   abstracted as in Sys/ExitDefs.wrapper_status ([needs], [child_lines]).  No proofs here. *)
+   abstracted to counts ([needs], [child_lines]); that both threads returning means status Wait(..) and anything
+   else SIGABRT is taken over here from Sys/WrapperMainDefs.v, where the threads' control flow (incl. the
+   reads) is modelled and the status is derived; this file adds WHICH BYTES were accepted.  No proofs here. *)
 From PP Require Export Sys.ExitDefs.
 Local Open Scope Z_scope.
 
